@@ -522,3 +522,46 @@ func HostAcceptWait(r *Run, cmd plugins.Cmd, id uint32) error {
 	}
 	return fmt.Errorf("unknown client type %T", cmd)
 }
+
+// RawProc is a process spawned directly by the harness (no plugin.Client).
+type RawProc struct {
+	P      *k.Proc
+	Stdout *LockedBuf
+	Stderr *LockedBuf
+}
+
+type LockedBuf struct {
+	mu sync.Mutex
+	b  bytes.Buffer
+}
+
+func (l *LockedBuf) Write(p []byte) (int, error) {
+	l.mu.Lock()
+	defer l.mu.Unlock()
+	return l.b.Write(p)
+}
+func (l *LockedBuf) Bytes() []byte {
+	l.mu.Lock()
+	defer l.mu.Unlock()
+	return append([]byte(nil), l.b.Bytes()...)
+}
+func (l *LockedBuf) String() string { return string(l.Bytes()) }
+
+// SpawnRaw starts program path with exactly env, draining its stdout/stderr
+// into buffers on host goroutines.
+func (r *Run) SpawnRaw(name, path string, env []string, opts *k.SpawnOpts) (*RawProc, error) {
+	or, ow := r.W.NewPipe(r.Host, "stdout."+name, 64<<10)
+	er, ew := r.W.NewPipe(r.Host, "stderr."+name, 64<<10)
+	p, err := r.W.Spawn(name, path, []string{path}, env, nil, ow, ew, opts)
+	ow.Close()
+	ew.Close()
+	if err != nil {
+		or.Close()
+		er.Close()
+		return nil, err
+	}
+	rp := &RawProc{P: p, Stdout: &LockedBuf{}, Stderr: &LockedBuf{}}
+	go io.Copy(rp.Stdout, or)
+	go io.Copy(rp.Stderr, er)
+	return rp, nil
+}
